@@ -1,7 +1,8 @@
 """C19 - compression and JSONP."""
 FUNCTIONS = ['payload.Payload.encode', 'base_server.BaseServer._ok',
              'base_server.BaseServer._gzip', 'base_server.BaseServer._deflate',
-             'server.Server.handle_request']
+             'base_server.BaseServer._bad_request', 'base_server.BaseServer._method_not_found',
+             'base_server.BaseServer._unauthorized', 'server.Server.handle_request']
 
 LEVEL_TEXT = ('Payload.encode (JSONP branch) returns exactly ___eio[<index>](<json.dumps(payload text)>); - one '
               'call statement whose single argument is a string literal of the joined packet encodings; _ok '
@@ -9,9 +10,13 @@ LEVEL_TEXT = ('Payload.encode (JSONP branch) returns exactly ___eio[<index>](<js
               'invariant and program-point obligations: a Content-Encoding header is added only if compression '
               'is enabled, the body reached the threshold and the coding is the first supported one the request '
               'lists, the body is then compressed(coding, original body), and a body without the header is the '
-              'original body')
+              'original body; the response constructors (_ok, _bad_request, _method_not_found, _unauthorized) '
+              'return a header list that is a fresh object (engine origin tracking of module-/class-level '
+              'lists), so the in-place `+=` of handle_request cannot leak headers into later responses')
 LEVEL_NOTE = ('assumed library facts: json.dumps of a str is a complete JavaScript string literal whose value is '
               'that str (L-JSON-JS); decompress(compress(x)) == x for gzip / zlib (C code, _gzip/_deflate are '
-              'trusted wrappers); "offered" = listed by name, parameters such as q=0 ignored (DESIGN 5.3)')
+              'trusted wrappers); "offered" = listed by name, parameters such as q=0 ignored (DESIGN 5.3); aliasing is tracked only for module-/class-level list and '
+              'dict constants reached by a direct attribute read (a value merged at a join point or rebuilt '
+              'by a type coercion loses its origin)')
 NOT_DECIDED = ['AsyncServer.handle_request compression block', 'q-values in Accept-Encoding']
 ASSUMPTIONS = [LEVEL_NOTE]
